@@ -5,6 +5,7 @@
 //! decoder's own tables mirror it; no decoder code is called.
 pub mod container;
 pub mod entropy;
+pub mod icc;
 pub mod vardct;
 
 use crate::bits::{BitWriter, pack_signed};
@@ -225,6 +226,9 @@ pub struct Program {
     /// XYB-encoded image (required for the VarDCT frames this generator writes)
     #[serde(default)]
     pub xyb: bool,
+    /// colour encoding of the image header (enum variants, embedded ICC)
+    #[serde(default)]
+    pub colour: icc::ColourSpec,
 }
 
 /// Structural byte offsets of an encoded codestream (relative to codestream start).
@@ -695,17 +699,7 @@ impl Program {
         }
         w.bool(self.xyb); // xyb_encoded
         // colour encoding
-        if self.gray && !self.xyb {
-            w.bool(false); // all_default
-            w.bool(false); // want_icc
-            w.enum_(1); // Grey
-            w.enum_(1); // white point D65
-            w.bool(false); // no gamma
-            w.enum_(13); // sRGB tf
-            w.enum_(1); // relative
-        } else {
-            w.bool(true);
-        }
+        icc::write_colour_encoding(w, &self.colour, self.gray, self.xyb);
         if extra_fields {
             w.bool(true); // tone mapping all_default
         }
@@ -728,6 +722,9 @@ impl Program {
                     }
                 }
             }
+        }
+        if let icc::ColourSpec::Icc(spec) = &self.colour {
+            spec.write(w, self.gray && !self.xyb);
         }
         w.pad();
     }
@@ -883,6 +880,7 @@ impl Program {
                 }
             }
         }
+        ma.tree_coder.end_session(w);
         ma.coder.write_header(w);
     }
 
@@ -931,7 +929,7 @@ impl Program {
     fn write_samples(&self, w: &mut BitWriter, m: &ModularSpec, ma: &MaSpec, chans: &[Chan], rng: &mut Rng, stream_salt: u64) {
         let coder = &ma.coder;
         match m.mode {
-            SampleMode::Empty => {}
+            SampleMode::Empty => return,
             SampleMode::Known => {
                 for (ci, c) in chans.iter().enumerate() {
                     for y in 0..c.h {
@@ -964,6 +962,8 @@ impl Program {
                 }
             }
         }
+        // one coded run per sub-image, even when it has no samples (the decoder still reads the ANS state)
+        coder.end_session(w);
     }
 
     /// One Modular sub-image section body (header + optional local tree + samples).
@@ -1120,6 +1120,7 @@ impl Program {
                 coder.write_value(&mut w, ctx(prev), l);
                 prev = l;
             }
+            coder.end_session(&mut w);
         } else {
             w.bool(false);
         }
